@@ -34,7 +34,7 @@ PROPS = {
     "C07": [("pool_sim", "A", 80000, 2000000), ("pool_sim", "T", 20000, 600000)],
     "C08": [("pool_sim", "A", 80000, 2000000), ("pool_sim", "T", 20000, 600000)],
     "C20": [("thread_sim", "A", 200000, 4000000), ("thread_sim", "T", 60000, 1000000)],
-    "C11": [("router_sim", "A", 50000, 1200000), ("router_sim", "T", 15000, 400000)],
+    "C11": [("router_sim", "A", 30000, 1000000), ("router_sim", "T", 9000, 300000)],
     "C10": [("subject_sim", "A", 1000000, 15000000)],
     "C18": [("path_sim", "A", 30000, 400000)],
     "C15": [("resource_sim", "T", 24000, 900000), ("pool_sim", "T", 24000, 900000), ("router_sim", "T", 16000, 600000)],
